@@ -24,7 +24,7 @@
  *          x:<hex>                           file bytes given directly
  *   ops    , separated:  r<k> read_batch(k) with def levels   q<k> read_batch(k) with def_levels = NULL
  *                        s<k> skip(k)   h has_next   m remaining   n free + re-create the column reader
- *   proj   all | i:<idx>,<idx>... | n:<name>,<name>...
+ *   proj   all | i:<idx>,<idx>... | n:<name>,<name>... | i0 | n0 (array given, count 0 = all columns)
  *
  * Results
  *   col : OK then one token per op:  r<ret>:<row.row...>  (rows rebuilt under the documented dense convention:
@@ -470,8 +470,11 @@ static void run_bat(char mode, int verify, const char* bs_tok, char* proj) {
     int pcols[MAXCOLS * 2]; int npc = 0;           /* file column index of each projected column */
     int ncols = carquet_reader_num_columns(rd);
     const carquet_schema_t* sc = carquet_reader_schema(rd);
-    if (!strcmp(proj, "all")) {
+    if (!strcmp(proj, "all") || !strcmp(proj, "i0") || !strcmp(proj, "n0")) {
         for (int c = 0; c < ncols && c < MAXCOLS * 2; c++) pcols[npc++] = c;
+        /* i0 / n0: the projection array is given (non-NULL) but its count is 0: all columns */
+        if (proj[0] == 'i') { idx[0] = 0; cfg.column_indices = idx; cfg.num_columns = 0; }
+        if (proj[0] == 'n') { names[0] = "x"; cfg.column_names = names; cfg.num_column_names = 0; }
     } else if (proj[0] == 'i' && proj[1] == ':') {
         char* p = proj + 2;
         while (*p && np < MAXCOLS * 2) { idx[np] = atoi(p); pcols[npc++] = idx[np]; np++; char* q = strchr(p, ','); if (!q) break; p = q + 1; }
@@ -631,6 +634,11 @@ static void run_meta(char mode, int verify) {
             carquet_status_t s3 = carquet_reader_column_statistics(rd, g, c, &cs);
             printf(":%d:%d:%lld", (int)s3, cs.has_null_count ? 1 : 0, cs.has_null_count ? (long long)cs.null_count : 0LL);
         }
+    }
+    {   /* row groups outside the file must be refused */
+        carquet_row_group_metadata_t m;
+        memset(&m, 0, sizeof m);
+        printf(" gx=%d:%d", (int)carquet_reader_row_group_metadata(rd, -1, &m), (int)carquet_reader_row_group_metadata(rd, nrg, &m));
     }
     putchar('\n');
     carquet_reader_close(rd);
